@@ -776,6 +776,7 @@ impl CfgGen {
                 *r.pick(&[64 * 1024usize, 512 * 1024, 5 * 1024 * 1024])
             }
         };
+        let wide = r.chance(1, 3);
         let mk = |r: &mut Rng, small: bool| -> Vec<ChanSpec> {
             let mut v = vec![
                 ChanSpec {
@@ -804,6 +805,23 @@ impl CfgGen {
                     resend_ms: *r.pick(&[0u64, 50, 300]),
                     max_mem: mem(r, small),
                 });
+            }
+            // "wide" ids: the whole u8 range is legal for channel ids; move every channel by a multiple of
+            // 32 and sometimes add a twin of the same kind whose id differs only in one high bit
+            if wide {
+                for c in v.iter_mut() {
+                    c.id = c.id.wrapping_add(32 * r.below(8) as u8);
+                }
+                if r.chance(1, 2) {
+                    let base = r.pick(&v).clone();
+                    let twin_id = base.id ^ *r.pick(&[32u8, 64, 128]);
+                    if !v.iter().any(|c| c.id == twin_id) {
+                        v.push(ChanSpec { id: twin_id, ..base });
+                    }
+                }
+                // ids must stay unique within the list
+                let mut seen = std::collections::BTreeSet::new();
+                v.retain(|c| seen.insert(c.id));
             }
             r.shuffle(&mut v);
             v
